@@ -142,7 +142,13 @@ impl Expression for Op {
                     .lhs
                     .resolve(ctx)?
                     .try_or(|| self.rhs.resolve(ctx))
-                    .map_err(Into::into);
+                    .map_err(|err| match err {
+                        // `abort` and `return` on the rhs keep their meaning.
+                        ValueError::Or(
+                            err @ (ExpressionError::Abort { .. } | ExpressionError::Return { .. }),
+                        ) => err,
+                        err => err.into(),
+                    });
             }
             And => {
                 return match self.lhs.resolve(ctx)? {
